@@ -117,6 +117,15 @@ def reFunctionName : List Char → Option Nat
   | c :: cs => if isLower c then some (1 + spanLen (fun c => isLower c || c = '_' || isDigit c) cs) else none
   | [] => none
 
+/-- `RE_TRUE = true(?![a-z_0-9(])`, `RE_FALSE`, `RE_NULL`: a keyword literal, not the start of a function
+name (`truex`, `null_`) or a call (`true(`) -/
+def reKeyword (kw : List Char) (inp : List Char) : Option Nat :=
+  if kw.isPrefixOf inp then
+    match inp.drop kw.length with
+    | c :: _ => if isLower c || c = '_' || isDigit c || c = '(' then none else some kw.length
+    | [] => some kw.length
+  else none
+
 /-- `ESCAPES` -/
 def isEscapeChar (c : Char) : Bool :=
   c = 'b' || c = 'f' || c = 'n' || c = 'r' || c = 't' || c = 'u' || c = '/' || c = '\\'
@@ -277,13 +286,13 @@ def lexFilterDefault (l : Lexer) : StepResult :=
   match l.accept "||".toList with
   | some l => goto (l.emit .or) .filter
   | none =>
-  match l.accept "true".toList with
+  match l.acceptMatch (reKeyword "true".toList) with
   | some l => goto (l.emit .true_) .filter
   | none =>
-  match l.accept "false".toList with
+  match l.acceptMatch (reKeyword "false".toList) with
   | some l => goto (l.emit .false_) .filter
   | none =>
-  match l.accept "null".toList with
+  match l.acceptMatch (reKeyword "null".toList) with
   | some l => goto (l.emit .null) .filter
   | none =>
   match l.acceptMatch reFloat with
